@@ -178,6 +178,32 @@ std::string run_session(const std::string& line, int line_no) {
                 S.outs.push_back(o);
                 std::size_t w = o.named ? S.exp->rotate_output(name, a[1] == "1") : S.exp->rotate_output(fd, a[1] == "1");
                 r = std::to_string(w);
+            } else if (op == "WB") {
+                // directly built block: WB:<parameters index>:<item letters>
+                auto a = vh::split(arg, ':');
+                CDNS::index_t k = static_cast<CDNS::index_t>(rec::U(a[0]));
+                CDNS::CdnsBlock blk(S.exp->m_file_preamble.get_block_parameters(k), k);
+                for (char c : a[1]) {
+                    CDNS::QueryResponse q;
+                    CDNS::MalformedMessage m;
+                    switch (c) {
+                        case 'e': blk.add_question_response_record(q, boost::none); break;
+                        case 's': q.qr_signature_index = blk.add_qr_signature(CDNS::QueryResponseSignature()); blk.add_question_response_record(q, boost::none); break;
+                        case 'r': q.response_processing_data = CDNS::ResponseProcessingData(); blk.add_question_response_record(q, boost::none); break;
+                        case 'x': q.query_extended = CDNS::QueryResponseExtended(); blk.add_question_response_record(q, boost::none); break;
+                        case 'l': { CDNS::QueryResponseExtended e; e.question_index = blk.add_question_list(std::vector<CDNS::index_t>());
+                                    e.answer_index = blk.add_rr_list(std::vector<CDNS::index_t>()); q.response_extended = e;
+                                    blk.add_question_response_record(q, boost::none); break; }
+                        case 'p': q.client_port = 53; blk.add_question_response_record(q, boost::none); break;
+                        case 'm': m.message_data_index = blk.add_malformed_message_data(CDNS::MalformedMessageData()); blk.add_malformed_message(m, boost::none); break;
+                        case 'n': blk.add_malformed_message(m, boost::none); break;
+                        case 'a': { CDNS::AddressEventCount ae; ae.ae_type = CDNS::AddressEventTypeValues::tcp_reset;
+                                    ae.ae_address_index = blk.add_ip_address(std::string("\x01\x02\x03\x04", 4)); blk.add_address_event_count(ae, boost::none); break; }
+                        case 't': blk.m_block_statistics = CDNS::BlockStatistics(); break;
+                        default: break;
+                    }
+                }
+                r = std::to_string(S.exp->write_block(blk));
             } else if (op == "AB") {
                 r = "i" + std::to_string(S.exp->add_block_parameters(S.bps.at(rec::U(arg))));
             } else if (op == "SA") {
